@@ -4,7 +4,7 @@
 EXTENDS CoseCrypto, Json
 AlgIds == BuiltIn \cup RSAlgs \cup {0, 99, 0 - 65537, 0 - 16}
 SignerKinds == {"rsa1024", "rsa2047", "rsa2048", "rsa3072", "rsa2048-opaque", "rsa1024-opaque", "rsa2047-opaque", "p224", "p256", "p384", "p521", "p256-opaque", "ed", "ed-opaque", "foreign-strange", "foreign-nil"}
-VerifierKinds == {"rsa1024", "rsa2047", "rsa2048", "rsa3072", "p224", "p256", "p384", "p521", "offcurve", "infinity", "unreduced", "negative", "ecdsa-value", "ed", "ed-private", "strange", "nil"}
+VerifierKinds == {"rsa1024", "rsa2047", "rsa2048", "rsa3072", "p224", "p256", "p384", "p521", "offcurve", "offcurve2", "offcurve2-p384", "offcurve2-p521", "infinity", "unreduced", "negative", "ecdsa-value", "ed", "ed-private", "strange", "nil"}
 Hashes == {"sha256", "sha384", "sha512"}
 CONSTANTS MsgLens
 
